@@ -111,7 +111,15 @@ def run_case(case, ctx):
                     ctx.violation("phase-network-aliased", "phase and amplitude networks share parameter storage", tags=tags)
     else:
         args = (nv,) if default_h else ((nv, nh, na) if kind == "mixed" else (nv, nh))
-        st = ctx.lib("construct(sizes)", CLS[kind], *args, gpu=False, tags=tags)
+        gpu_req = bool(i % 5 == 0)  # requesting the GPU on a CPU-only machine must fall back (with a warning), not fail
+        import warnings as _w
+        with _w.catch_warnings():
+            _w.simplefilter("ignore")
+            st = ctx.lib("construct(sizes)", CLS[kind], *args, gpu=gpu_req, tags=dict(tags, gpu_requested=gpu_req))
+        if gpu_req:
+            ctx.count("constructions_requesting_gpu_on_cpu")
+            if str(st.device) != "cpu" or any(str(p_.device) != "cpu" for p_ in st.rbm_am.parameters()):
+                ctx.violation("device", f"state built with gpu=True on a CPU-only machine reports device {st.device}", tags=tags)
         ctx.count("constructions_from_sizes")
         ops.append("construct-sizes")
         if check_shapes(ctx, st, kind, nv, nh, na, tags, "construct(sizes)"):
